@@ -327,7 +327,7 @@ type formatVerb struct {
 // formatting sequence that is encountered.
 func formatAppend(verb *formatVerb, buf *bytes.Buffer, args []cty.Value) error {
 	argIdx := verb.ArgNum - 1
-	if argIdx >= len(args) {
+	if argIdx < 0 || argIdx >= len(args) {
 		return fmt.Errorf(
 			"not enough arguments for %q at %d: need index %d but have %d total",
 			verb.Raw, verb.Offset,
